@@ -119,7 +119,13 @@ def _fn_token(*a):          # token 12: "a function"
 
 
 NONVAL = {11: None, 12: _fn_token, 13: "s", 14: 7}
-NN, EP, BT = object(), 5, 7          # the arguments of a dispatch (identity is compared)
+class _State:
+    """stands in for the neural state in a dispatch: identity is compared; it carries the attribute a
+    dispatcher may legitimately read"""
+    stop_training = False
+
+
+NN, EP, BT = _State(), 5, 7          # the arguments of a dispatch (identity is compared)
 HOOK_ARGS = [(NN,), (NN,), (NN, EP), (NN, EP), (NN, EP, BT), (NN, EP, BT)]
 LOG = []
 OBSERVED = {}
